@@ -109,3 +109,19 @@ def body_family(prog, root_key):
                     fam.append(gb)
         i += 1
     return fam
+
+
+def closure_users(parent, closure_key):
+    """calls of `parent` that take the closure `closure_key` itself as an argument (it appears among their generic arguments)"""
+    return [u for u in parent.calls if closure_key in u.gbodies and u.bb in parent.live_blocks()]
+
+
+def closure_capture_origins(parent, closure_key):
+    """provenance (in the parent) of everything the closure captures"""
+    from ..util import agg_assigns
+    sls = []
+    for i, st in agg_assigns(parent, kind="closure"):
+        if st["rv"].get("def") == closure_key:
+            for o in st["rv"]["ops"]:
+                sls.append(origins(parent, o))
+    return sls
